@@ -26,4 +26,24 @@ Fold(c, s, x) ==
                 out |-> <<[rtt |-> IF f.count = 0 THEN 0 ELSE f.sum \div f.count, inflight |-> f.maxin, drop |-> f.drop]>>]
           ELSE [st |-> f, out |-> <<>>]
 
+(* ---- the general case: window times that differ ------------------------------------------------ *)
+(* All times in milliseconds (the harness multiplies by 10^6): a sample starts at x.s, ends at x.s + rtt; the     *)
+(* window that closes at `end` opens the next one until end + min(max(2 x least success RTT, minw), maxw)         *)
+(* (minw when the window holds no success).  The mean is reported as whole milliseconds plus nanoseconds.         *)
+Min(a, b) == IF a < b THEN a ELSE b
+Empty2 == [sum |-> 0, count |-> 0, min |-> -1, maxin |-> 0, drop |-> FALSE, nu |-> 0]
+Fold2(c, s, x) ==
+  IF x.rtt < c.threshold THEN [st |-> s, out |-> <<>>]
+  ELSE LET f == IF x.drop THEN [s EXCEPT !.maxin = Max(@, x.inflight), !.drop = TRUE]
+                 ELSE [s EXCEPT !.sum = @ + x.rtt, !.count = @ + 1, !.min = IF @ < 0 THEN x.rtt ELSE Min(@, x.rtt),
+                                !.maxin = Max(@, x.inflight)]
+           end == x.s + x.rtt
+       IN IF end > s.nu /\ x.inflight > c.wsize
+          THEN LET period == IF f.count = 0 THEN c.minw ELSE Min(Max(2 * f.min, c.minw), c.maxw) IN
+               [st |-> [Empty2 EXCEPT !.nu = end + period],
+                out |-> <<[rtt |-> IF f.count = 0 THEN 0 ELSE f.sum \div f.count,
+                           rem |-> IF f.count = 0 THEN 0 ELSE ((f.sum % f.count) * 1000000) \div f.count,
+                           inflight |-> f.maxin, drop |-> f.drop]>>]
+          ELSE [st |-> f, out |-> <<>>]
+
 =================================================================================
